@@ -107,7 +107,13 @@ func cmdCheck(args []string) int {
 	}
 	var fns []*ssa.Function
 	var missing []string
+	fnOnly := map[string]*regexp.Regexp{}
 	for _, k := range pc.Functions {
+		// "key ## regexp": only the obligations of that function whose name matches count for this property
+		if i := strings.Index(k, " ## "); i >= 0 {
+			fnOnly[k[:i]] = regexp.MustCompile(k[i+4:])
+			k = k[:i]
+		}
 		if f := eng.byName[k]; f != nil && len(f.Blocks) > 0 {
 			fns = append(fns, f)
 		} else {
@@ -193,6 +199,9 @@ func cmdCheck(args []string) int {
 		n := 0
 		for _, o := range r.Obls {
 			if only != nil && !only.MatchString(o.Name) {
+				continue
+			}
+			if re := fnOnly[r.Key]; re != nil && !re.MatchString(o.Name) {
 				continue
 			}
 			n++
